@@ -28,7 +28,10 @@ ASSUMPTIONS = [
     "Side effects at activation time (ptera re-executes the `def`) are outside the statement, which is about calling.",
     "gen.throw(StopIteration) is not generated: `yield from` delegation (used by the generator-suspension fix) absorbs a thrown StopIteration.",
 ]
-MECHANISMS = {}
+MECH_NESTED_GLOBAL = "global-read-by-nested-function-snapshotted-at-entry"
+MECHANISMS = {
+    MECH_NESTED_GLOBAL: "a module global that only a function nested in f reads is pre-fetched when the instrumented f is entered and handed to the nested function as a closure variable: a closure that outlives the call keeps the value the global had at that moment (def make(): def inner(): return G; return inner - rebind G after make() returned: the original inner() sees the new value, the one made by the instrumented make() the old one)",
+}
 MIN_DECIDING = {"quick": 4000, "thorough": 80000}
 SHARD_TIMEOUT = {"quick": 1200, "thorough": 7200}
 
@@ -336,6 +339,48 @@ def check_global_shadowing(spec, res):
         res.count("global_shadowing_sequences")
 
 
+def check_nested_global_snapshot(spec, res, known):
+    """Sequence: the instrumented f returns a closure that reads a module global; the global is
+    rebound after f has returned; the closure is called.  (Globals rebound *during* the call are the
+    documented exception; this is after it.)"""
+    from ptera import probing, tooled
+
+    body = "G5 = 1\ndef f(p):\n    def inner(q):\n        return G5 + q + __s__(1, 0)\n    return inner\n"
+    src = progen.PRELUDE + "\n" + body
+    for mode in ("tooled", "inplace", "probe-on-global", "probe-other"):
+        mod = prorun.load_src(src, spec["scratch"], f"c01nested_{mode.replace('-', '_')}")
+        res.evaluations += 1
+        res.deciding += 1
+        case = {"nested_global": mode, "src": body}
+        try:
+            fn, cm = mod.f, None
+            if mode == "tooled":
+                fn = tooled(mod.f)
+            elif mode == "inplace":
+                tooled.inplace(mod.f)
+            else:
+                cm = probing("f > G5" if mode == "probe-on-global" else "f > p", env=vars(mod))
+                cm.__enter__()
+            try:
+                inner = fn(0)
+                before = inner(10)
+                mod.G5 = 500
+                after = inner(10)
+            finally:
+                if cm is not None:
+                    cm.__exit__(None, None, None)
+        except Exception as e:
+            res.violation(case, {"what": "exception in the nested-global sequence", "error": common.fmt_exc(e)[-1000:]})
+            continue
+        res.count("nested_global_sequences")
+        if (before, after) != (11, 510):
+            why = {"what": "a closure returned by the instrumented function does not see the rebound global", "got": [before, after], "untouched": [11, 510]}
+            if MECH_NESTED_GLOBAL in known and (before, after) == (11, 11):
+                res.finding(MECH_NESTED_GLOBAL, {"case": case, "why": why})
+            else:
+                res.violation(case, why)
+
+
 def run_shard(spec):
     res = ShardResult()
     check_program.ilog = InteractLog()
@@ -344,6 +389,7 @@ def run_shard(spec):
     if s0 == 0:
         check_shapes(spec, res)
         check_global_shadowing(spec, res)
+        check_nested_global_snapshot(spec, res, known)
     for i in range(s0, s0 + cnt):
         rnd = rng_for("C01", spec["seed"], i)
         opts = dict(options_for(known))
